@@ -289,8 +289,8 @@ func (es *EventSystem) consumeEvents() {
 
 			es.indexMux.RLock()
 			ch, ok := es.topicChans[ev.Query]
-			es.indexMux.RUnlock()
 			if !ok {
+				es.indexMux.RUnlock()
 				es.logger.Debug("channel for subscription not found", "topic", ev.Query)
 				es.logger.Debug("list of available channels", "channels", es.eventBus.Topics())
 				continue
@@ -303,6 +303,9 @@ func (es *EventSystem) consumeEvents() {
 				es.logger.Debug("dropped event during lagging subscription", "topic", ev.Query)
 			case ch <- ev:
 			}
+			// the event loop closes this channel while holding the write lock (uninstall),
+			// so the read lock must be held until the event is sent, otherwise the send can hit a closed channel
+			es.indexMux.RUnlock()
 		}
 
 		time.Sleep(time.Second)
